@@ -136,7 +136,7 @@ func c04(r *sim.R) *sim.Violation {
 			if mutOps[cp.mutIx].Path2 != "" {
 				where += " -> " + opSig(mutOps[cp.mutIx].Path2)
 			}
-			sig := "in-flight day: " + wd.dayState(wo, oldMeta, oldName)
+			sig := "killed write-out, " + wd.dayState(wo, oldMeta, oldName)
 			st := wd.fs.TreeHash(tree)
 			if states[st] {
 				r.Probe("duplicate_post_crash_state")
